@@ -260,7 +260,9 @@ def _body(rng, reqs, gl_positions, final_newline, ret, v0, gl_reqs=(), dialect=F
 
 NAME_POOL = [b'a', b'b', b'c', b'util', b'lib/util', b'lib/deep/x', b'mod.lua', b'3d', b'sp ace', b'eng/core',
              b'eng/gfx', b'x_y', b'q"z', b'b\\s', b"it's", b'n-1', b'A', b'w?y', b'p;q', b'caf\xc3\xa9', b'lib',
-             b'eng']
+             b'eng',
+             # dots that are not the .lua suffix: a dotted file stem, a dotted directory
+             b'json.min', b'v1.2/util', b'a.b.c']
 
 
 def _cand(pat, name, src):
@@ -523,6 +525,8 @@ def corpus_cases():
     yield _mk({'main.lua': b'b=require("lib.lua",{use_game_loop=true})\na=require("lib")\n',
                'lib.lua': b'function _update() u=1 end\nfunction helper() end\nfunction _draw() end\nreturn 1\n'},
               tag='two-names-one-file-options')
+    yield _mk({'main.lua': b'j=require("json.min")\nu=require("v1.2/util")\n', 'json.min.lua': b'return {}\n',
+               'v1.2/util.lua': b'return 2\n'}, tag='dotted-names')
     yield _mk({'main.lua': b'x=require("a")\n', 'a.lua': b''}, tag='empty-package')
     yield _mk({'main.lua': b'a=require("lib")\nb=require("lib/x")\n', 'lib.lua': b'return 1\n', 'lib/x.lua': b'return 2\n'},
               tag='directory-and-file')
